@@ -147,6 +147,15 @@ CLAIMED = {
              "primitives under the same stop atoms. Which ready sources of a batch are delivered and equality of delivery sequences are not decided.",
         tech="may-typestate dataflow with user-callback kill set, who-writes/who-calls, sibling (effect-set) comparison through resolved callbacks",
         ref="DESIGN.md §4 C03"),
+    "C02": dict(
+        text="Static rules for pub/sub: eligibility facts dominating the single pipe write (RUNNING|PAUSED, subscription for publishes), who writes/"
+             "reads the pipe and who can reach tell_if, whole-template copy with sender reference, ownership of the per-recipient copy on the "
+             "pipe-full path (written or released, nothing else released), payload-owner rule for M_PS_AUTOFREE (no per-recipient destructor frees "
+             "the payload; one ref-counted holder per send, referenced by each copy, dropped by the sender after fan-out), flush pass on every path "
+             "of loop_stop between CTX_STOPPED and poll_clear, contradiction rule on the nullable subscription pointer followed into callees, drain "
+             "before removal on stop. Recipient sets for concrete subscription populations, regex matching and >= 8192 pending messages are not decided.",
+        tech="must-fact guards, path-sensitive ownership, allocation-multiplicity (per-recipient vs per-send) over the resolved call graph, null-deref contradiction rule with callee summaries",
+        ref="DESIGN.md §4 C02"),
 }
 
 NOT_APPLICABLE = {
